@@ -101,6 +101,11 @@ class Interp:
         self.max_steps = max_steps
         self.reset_run([])
         self._globals_cache = {}
+        self._edisp = {}
+        self._sdisp = {}
+        self._name_cache = {}
+        self.generic_only = False
+        self.generic_skipped = 0
         self.attr_write_log = None      # optional list of (obj, attr, qualname)
         self.call_log = None            # optional list of (qualname, receiver)
         self.warnings = []
@@ -117,7 +122,11 @@ class Interp:
         self.warnings = []
 
     def decide(self, m: Maybe) -> bool:
-        self.imprecise = True
+        if self.generic_only and m.generic is not None:
+            # stay on the generic side of an equality between reals (the other side is a
+            # measure-zero subset of the region); recorded, not explored
+            self.generic_skipped += 1
+            return m.generic
         if self.pos < len(self.script):
             v = self.script[self.pos]
         else:
@@ -126,6 +135,8 @@ class Interp:
         if len(self.fork_descs) <= self.pos:
             self.fork_descs.append(m.desc)
         self.pos += 1
+        if m.generic is None or v != m.generic:
+            self.imprecise = True
         if self.pos > 24:
             raise Unsupported("too many undecided branches on one path")
         return v
@@ -143,7 +154,7 @@ class Interp:
                 return True
             if v.iv.is_point():
                 return False
-            return self.decide(Maybe(f"{v!r} != 0"))
+            return self.decide(Maybe(f"{v!r} != 0", generic=True))
         if isinstance(v, Obj):
             fi = self.model.resolve_method(v.cls, "__bool__")
             if fi is not None:
@@ -227,8 +238,13 @@ class Interp:
         if ok:
             return v
         fr = self.stack[-1]
+        key = (fr.module.name, name)
+        hit = self._name_cache.get(key)
+        if hit is not None:
+            return hit[0]
         v, ok = self.module_global(fr.module, name)
         if ok:
+            self._name_cache[key] = (v,)
             return v
         if name in BUILTIN_TYPES:
             return BuiltinType(name)
@@ -244,12 +260,20 @@ class Interp:
 
     # ------------------------------------------------------------ expressions
     def eval(self, node, env: Env):
-        self.tick()
-        m = getattr(self, "e_" + type(node).__name__, None)
+        self.steps += 1
+        if self.steps > self.max_steps:
+            raise StepLimit(f"more than {self.max_steps} interpretation steps")
+        tp = type(node)
+        m = self._edisp.get(tp)
         if m is None:
-            raise Unsupported(f"expression {type(node).__name__} at {self.where()}")
-        if hasattr(node, "lineno") and self.stack:
+            m = getattr(self, "e_" + tp.__name__, None)
+            if m is None:
+                raise Unsupported(f"expression {tp.__name__} at {self.where()}")
+            self._edisp[tp] = m
+        try:
             self.stack[-1].lineno = node.lineno
+        except (AttributeError, IndexError):
+            pass
         return m(node, env)
 
     def e_Constant(self, node, env):
@@ -335,7 +359,7 @@ class Interp:
         v = self.eval(node.operand, env)
         if isinstance(node.op, ast.Not):
             if isinstance(v, Maybe):
-                return Maybe("not " + v.desc)
+                return v.negated()
             return not self.truth(v)
         if isinstance(node.op, ast.USub):
             return self.neg(v)
